@@ -27,6 +27,11 @@ impl RuleMap {
         ensures !old(self).has(k.id()) ==> final(self).seq() == old(self).seq().push(RuleV { name: k.id(), pidxs: v.pidxs@ }),
             old(self).has(k.id()) ==> final(self).seq() == old(self).seq().update(old(self).idx_of(k.id()), RuleV { name: k.id(), pidxs: v.pidxs@ }),
     { unimplemented!() }
+    // IndexMap::get: the rule stored under that name, if any
+    #[verifier::external_body]
+    pub fn get(&self, k: &Name) -> (r: Option<&Rule>)
+        ensures (r is Some) == self.has(k.id()), r matches Some(x) ==> x.pidxs@ == self.seq()[self.idx_of(k.id())].pidxs,
+    { unimplemented!() }
     // `self.rules[&name].pidxs.push(x)` (IndexMut: panics when the key is missing)
     #[verifier::external_body]
     pub fn push_pidx(&mut self, name: &Name, x: usize)
@@ -34,7 +39,7 @@ impl RuleMap {
         ensures final(self).seq() == old(self).seq().update(old(self).idx_of(name.id()), RuleV { name: name.id(), pidxs: old(self).seq()[old(self).idx_of(name.id())].pidxs.push(x) }),
     { unimplemented!() }
 }
-pub struct GrammarAST { pub rules: RuleMap, pub prods: Vec<Production> }
+pub struct GrammarAST { pub rules: RuleMap, pub prods: Vec<Production>, pub programs: Option<Name> }
 
 // ---------------- specification ----------------
 pub open spec fn at(R: Seq<RuleV>, k: int, j: int) -> usize { R[k].pidxs[j] }
@@ -103,6 +108,28 @@ impl GrammarAST {
             }
             assert forall|a: int, b: int| 0 <= a < b < R1.len() implies (#[trigger] R1[a]).name != (#[trigger] R1[b]).name by { assert(R1[a].name == R0[a].name && R1[b].name == R0[b].name); }
         }
+    }
+
+    pub fn add_programs(&mut self, s: Name)
+        ensures final(self).programs == Some(s) && final(self).rules == old(self).rules && final(self).prods == old(self).prods, // OBL: C10.ast.the_programs_section_is_kept_as_given_and_nothing_else_changes
+    {
+        //@probe
+        //@body file=cfgrammar/src/lib/yacc/ast.rs fn=add_programs
+        //@endbody
+    }
+    pub fn set_programs(&mut self, s: Name)
+        ensures final(self).programs == Some(s) && final(self).rules == old(self).rules && final(self).prods == old(self).prods, // OBL: C10.ast.setting_the_programs_section_keeps_it_as_given_and_nothing_else_changes
+    {
+        //@probe
+        //@body file=cfgrammar/src/lib/yacc/ast.rs fn=set_programs
+        //@endbody
+    }
+    pub fn get_rule(&self, key: &Name) -> (r: Option<&Rule>)
+        ensures (r is Some) == self.rules.has(key.id()), r matches Some(x) ==> x.pidxs@ == self.rules.seq()[self.rules.idx_of(key.id())].pidxs, // OBL: C10.ast.a_rule_is_found_by_name_exactly_when_it_was_added_and_with_its_productions
+    {
+        //@probe
+        //@body file=cfgrammar/src/lib/yacc/ast.rs fn=get_rule
+        //@endbody
     }
 }
 //@use prelude/tail.rs
